@@ -136,6 +136,39 @@ func VerifH_ServerNextRPC() {
 		}
 		vrt.Assert(answered, "the probe's response is written to the transport")
 		vrt.Cover("probe-handled")
+		// RPC 1's own outcome on the wire: the handler's response message (if any) precedes
+		// its final packet, and a failing handler's final packet is an Error carrying
+		// exactly its message (code 0), a succeeding one's a CloseSend.
+		if ending != endCancelOnly && ending != endCancelAfterMeta && h.served == 2 {
+			sawMsg, sawFinal := false, false
+			for _, p := range pkts {
+				if p.Sid != 1 {
+					continue
+				}
+				switch p.Kind {
+				case drpcwire.KindMessage:
+					vrt.Assert(!sawFinal, "messages the handler sent precede its final packet")
+					vrt.Assert(len(p.Data) == 1 && p.Data[0] == 0x11, "the handler's response is intact")
+					sawMsg = true
+				case drpcwire.KindError:
+					vrt.Assert(h.fail, "an error packet only for a failing handler")
+					want := append([]byte{0, 0, 0, 0, 0, 0, 0, 0}, "handler failed"...)
+					okp := len(p.Data) == len(want)
+					for i := 0; okp && i < len(want); i++ {
+						okp = p.Data[i] == want[i]
+					}
+					vrt.Assert(okp, "the error packet carries exactly the handler's message and code")
+					sawFinal = true
+				case drpcwire.KindCloseSend:
+					vrt.Assert(!h.fail, "a successful handler never yields an error at the client")
+					sawFinal = true
+				}
+			}
+			if sawFinal && h.respond && ending == endCloseSendThenClose {
+				vrt.Cover("rpc1-response-then-final")
+			}
+			_ = sawMsg
+		}
 	}
 	// tear down: the client goes away
 	tr.Close()
